@@ -15,7 +15,8 @@ NAMES = ['/etc/passwd', '/etc/hosts.d/a', '/home/alice/.config/app/settings.json
 PROFILES = ['foo', 'foo//bar', 'bar', 'foobar', 'firefox', 'firefox//null-/usr/bin/lsb_release', 'dbus-daemon', 'a b', 'xdg-open']
 OPS_FILE = [('open', 'r'), ('open', 'w'), ('open', 'rw'), ('mknod', 'c'), ('unlink', 'd'), ('truncate', 'w'), ('exec', 'x'),
             ('file_mmap', 'rm'), ('file_lock', 'k'), ('link', 'l'), ('rename_src', 'rw'), ('mkdir', 'c'), ('chmod', 'w'),
-            ('getattr', 'r'), ('file_inherit', 'rw')]
+            ('getattr', 'r'), ('file_inherit', 'rw'), ('open', 'wc'), ('open', 'ac'), ('unlink', 'wd'), ('open', 'wrc'),
+            ('open', 'rwc'), ('file_mmap', 'rwm')]
 
 
 def enc_val(key, v, force=None):
@@ -160,6 +161,20 @@ def gen_log(rng, n_events, fmt=None, long_line=None):
             e = Ev([('apparmor', 'ALLOWED', None), ('operation', 'link', None), ('class', 'file', None), ('profile', prof, None), ('name', name, None),
                     ('pid', str(rng.randint(2, 99999)), 'bare'), ('comm', 'ln', None), ('requested_mask', 'l', None), ('denied_mask', 'l', None),
                     ('fsuid', '1000', 'bare'), ('ouid', '1000', 'bare'), ('target', tgt, None)])
+            evs.append((e, len(lines)))
+            lines.append(e.render(rng, fmt))
+    if rng.random() < 0.2:
+        # the same several-letter mask on two paths of one profile, then another mask on one of them (the rules built
+        # from the first two records are merged with the third: what one rule gains must not show up in the other)
+        prof = rng.choice(PROFILES)
+        a, b = rng.sample(NAMES[:8] + ['/var/lib/demo/state.db', '/var/lib/demo/journal'], 2)
+        m1 = rng.choice(['wc', 'ac', 'wd', 'wrc', 'rwc', 'rwk'])
+        m2 = rng.choice(['r', 'k', 'm', 'w'])
+        st = rng.choice(['DENIED', 'ALLOWED'])
+        for nm, mk in ((a, m1), (b, m1), (a, m2)):
+            e = Ev([('apparmor', st, None), ('operation', 'open', None), ('class', 'file', None), ('profile', prof, None), ('name', nm, None),
+                    ('pid', str(rng.randint(2, 99999)), 'bare'), ('comm', 'demo', None), ('requested_mask', mk, None), ('denied_mask', mk, None),
+                    ('fsuid', '1000', 'bare'), ('ouid', '1000', 'bare')])
             evs.append((e, len(lines)))
             lines.append(e.render(rng, fmt))
     if long_line is not None:
